@@ -1,3 +1,4 @@
+import Proofs.EcdsaInstLegacy
 import Proofs.EcdsaCodec
 import Proofs.EcdsaInstNamed
 import Proofs.EcdsaInstToy
@@ -168,5 +169,27 @@ theorem sign_then_verify_named (row : Gen.CurveRow) (hrow : row ∈ [Gen.curve_N
   exact sign_then_verify_on_curve _ C M.toMatches d hd dg k rand enc wrap dec hcodec allow sig hsig
 
 end Named
+
+/-! ### user-built curves whose generator is a legacy affine `Point` (no `mul_add`)
+`Public_key.verifies` then computes `u1 * G + u2 * Q` with `Point.__mul__`, `PointJacobi.__mul__` and the mixed
+`__add__` / `__radd__` dispatch; `from_public_point` converts the key with `PointJacobi.from_affine`.  The interface is
+proved for this configuration too (Proofs/EcdsaInstLegacy.lean: `OnCurve.pointOpsCorrect_legacy`, point objects
+`OnCurve.ValidL` = INFINITY, `PointJacobi` or `Point` values of ⟨G⟩). -/
+section Legacy
+open GroupInterface
+variable {p : ℕ} [Fact p.Prime] {a b : ℤ}
+
+theorem sign_then_verify_legacy {β σ : Type} (c : Affine.Crv) (C : Ctx p a b) (M : OnCurve.MatchesL c C)
+    (d : ℤ) (hd : 1 ≤ d ∧ d < c.n) (dg : Bytes) (k : Option ℤ) (rand : ℤ → Res ℤ)
+    (enc : ℤ → ℤ → ℤ → Res β) (wrap : β → σ) (dec : σ → ℕ → Res (ℕ × ℕ)) (hcodec : Codec enc wrap dec c.n)
+    (allow : Bool) (sig : β) (hsig : signDigest (OnCurve.ops c) d dg k rand enc allow = .ok sig) :
+    ∃ Q, fromSecretExponent (OnCurve.ops c) d = .ok Q ∧
+      verifyDigest (OnCurve.ops c) Q dec (wrap sig) dg allow = .ok true := by
+  obtain ⟨Q, hQ, vQ, dQ⟩ := key_pair_ok (OnCurve.pointOpsCorrect_legacy c C M) d hd
+  exact ⟨Q, hQ, sign_then_verify (OnCurve.pointOpsCorrect_legacy c C M) d Q vQ dQ dg k rand enc wrap dec hcodec allow sig hsig⟩
+
+example : ∃ C : Ctx 11 1 6, OnCurve.MatchesL OnCurve.toyCrvL C := OnCurve.toy_matchesL
+
+end Legacy
 
 end C01
